@@ -3,7 +3,11 @@
 
      drawInlineLevel   a line or inline box draws its children in order: a TextBox
                        through drawText, anything else recursively (1527-1541);
-                       a TextBox met directly is drawn too (1544-1546, list markers)
+                       a TextBox met directly is drawn too (1544-1546, list markers).
+                       The box's own visibility only matters to its background and border
+                       (draw.go:614, 1263): `visibility` is inherited but a descendant may
+                       set it back to `visible`, so the children of a hidden line / inline
+                       box are visited all the same
      drawText          returns at once when visibility != visible (1552-1554)
      drawFirstLine     returns when strings.TrimSpace(text) == "" (1586-1588) or the
                        font size is below 1e-6 (1590-1593); otherwise exactly one
@@ -18,7 +22,7 @@ Export ListNotations.
 
 Inductive pbox :=
 | PText (visible : bool) (font_ok : bool) (text : list N)
-| PBox (kids : list pbox).          (* line box, inline box, block container ... *)
+| PBox (visible : bool) (kids : list pbox).   (* line box, inline box, block container ...: its own visibility *)
 
 (* unicode.IsSpace on the code points that can occur (strings.TrimSpace) *)
 Definition is_space_rune (c : N) : bool :=
@@ -33,12 +37,44 @@ Definition drawable (visible font_ok : bool) (text : list N) : bool :=
 Fixpoint draw_events (b : pbox) : list (list N) :=
   match b with
   | PText v f t => if drawable v f t then [t] else []
-  | PBox ks => flat_map draw_events ks
+  | PBox _ ks => flat_map draw_events ks
   end.
 
 (* the text boxes of a box, in document order *)
 Fixpoint text_boxes (b : pbox) : list (bool * bool * list N) :=
   match b with
   | PText v f t => [(v, f, t)]
-  | PBox ks => flat_map text_boxes ks
+  | PBox _ ks => flat_map text_boxes ks
+  end.
+
+(* the same tree with every container visible *)
+Fixpoint show_boxes (b : pbox) : pbox :=
+  match b with
+  | PText v f t => PText v f t
+  | PBox _ ks => PBox true (map show_boxes ks)
+  end.
+
+(* computed visibility (CSS 2.1 11.2: inherited; `hidden` / `collapse` boxes are invisible
+   but "descendants of the element will be visible if they have visibility: visible"):
+   a source tree in which a node may set the property, resolved to the tree above *)
+Inductive vbox :=
+| VText (text : list N)
+| VBox (set : option bool) (kids : list vbox).     (* Some true = visible, Some false = hidden / collapse *)
+
+Fixpoint resolve_visibility (inherited : bool) (b : vbox) : pbox :=
+  match b with
+  | VText t => PText inherited true t
+  | VBox set ks =>
+      let v := match set with Some x => x | None => inherited end in
+      PBox v (map (resolve_visibility v) ks)
+  end.
+
+(* the texts of the source tree whose nearest ancestor that sets `visibility` sets it to
+   visible (none: the initial value, visible), in document order *)
+Fixpoint visible_texts (inherited : bool) (b : vbox) : list (list N) :=
+  match b with
+  | VText t => if inherited then [t] else []
+  | VBox set ks =>
+      let v := match set with Some x => x | None => inherited end in
+      flat_map (visible_texts v) ks
   end.
